@@ -42,7 +42,7 @@ func gScalar(k *big.Int) *goldilocks.Scalar {
 func goldilocksAdapter() *adapter {
 	ref := curves.Ed448
 	var c goldilocks.Curve
-	ad := &adapter{name: "goldilocks", r: ref.R, sbytes: goldilocks.ScalarSize}
+	ad := &adapter{name: "goldilocks", r: ref.R, sbytes: goldilocks.ScalarSize, projective: true}
 	ad.ref = func(k *big.Int) string { return eStr(ref.MulG(k)) }
 	ad.mk = func(a *big.Int) pt { return gPoint(ref.MulG(a)) }
 	ad.enc = func(p pt) string {
@@ -105,6 +105,70 @@ func TestC13Goldilocks(t *testing.T) {
 	})
 }
 
+// TestC13GoldilocksLowOrder: the curve points with x = 0 or y = 0 ((0,1), (0,−1), (±1,0): orders 1, 2, 4) are accepted by
+// FromAffine; Add / Double / Neg use complete formulas and must be right for T + a·G as well. (ScalarMult is only
+// specified on the prime-order group and is not called here.)
+func TestC13GoldilocksLowOrder(t *testing.T) {
+	defer vlib.Done()
+	selftest(t)
+	ad := goldilocksAdapter()
+	ref := curves.Ed448
+	var c goldilocks.Curve
+	f := ref.F
+	low := []curves.EPoint{ref.Identity(), {X: f.Int(0), Y: f.Int(-1)}, {X: f.Int(1), Y: f.Int(0)}, {X: f.Int(-1), Y: f.Int(0)}}
+	for _, p := range low {
+		if !ref.OnCurve(p) || !ref.IsIdentity(ref.Mul(big.NewInt(4), p)) {
+			t.Fatalf("SELFTEST-FAIL low-order point")
+		}
+	}
+	sub := "special/goldilocks"
+	vlib.Check(t, vlib.N(120, 480), func(t *rapid.T) {
+		i := rapid.IntRange(0, 3).Draw(t, "low1")
+		j := rapid.IntRange(0, 3).Draw(t, "low2")
+		a := big.NewInt(0)
+		if rapid.Bool().Draw(t, "plusMultiple") {
+			a, _ = drawExp(t, ad, "a")
+		}
+		b, rel := drawRelated(t, ad, a, "q")
+		vlib.Eval(sub)
+		vlib.Class(sub, fmt.Sprintf("low#%d+low#%d", i, j))
+		vlib.Class(sub, rel)
+		Pr := ref.Add(ref.MulG(a), low[i])
+		Qr := ref.Add(ref.MulG(b), low[j])
+		P, Q := gPoint(Pr), gPoint(Qr)
+		desc := fmt.Sprintf("P=%s Q=%s", eStr(Pr), eStr(Qr))
+		if !c.IsOnCurve(P) || P.IsIdentity() != ref.IsIdentity(Pr) {
+			if vlib.Report(t, "C13/goldilocks.IsOnCurve-IsIdentity/low-order-point", desc) {
+				return
+			}
+		}
+		if got, want := ad.enc(c.Add(P, Q)), eStr(ref.Add(Pr, Qr)); got != want {
+			if mismatch(t, ad, "Add", "low-order-operand", got, want, desc) {
+				return
+			}
+		}
+		// with un-normalised operands as well
+		S := c.Add(c.Add(P, Q), ad.mk(big.NewInt(7)).(*goldilocks.Point))
+		if got, want := ad.enc(c.Add(S, Q)), eStr(ref.Add(ref.Add(ref.Add(Pr, Qr), ref.MulG(big.NewInt(7))), Qr)); got != want {
+			if mismatch(t, ad, "Add", "low-order-operand-projective", got, want, desc) {
+				return
+			}
+		}
+		if got, want := ad.enc(c.Double(P)), eStr(ref.Double(Pr)); got != want {
+			if mismatch(t, ad, "Double", "low-order-operand", got, want, desc) {
+				return
+			}
+		}
+		if got, want := ad.enc(ad.neg(P)), eStr(ref.Neg(Pr)); got != want {
+			if mismatch(t, ad, "Neg", "low-order-operand", got, want, desc) {
+				return
+			}
+		}
+		vlib.NonTrivial(sub, "low-order-operand", []byte{byte(i), byte(j)}, a.Bytes(), []byte{0}, b.Bytes())
+		vlib.Sample(sub, fmt.Sprintf("low#%d", i), desc)
+	})
+}
+
 // ---------------------------------------------------------------------------
 // FourQ
 
@@ -136,7 +200,19 @@ func fourqTorsion() []curves.EPoint {
 	}
 	out := []curves.EPoint{ref.Identity()}
 	seen := map[string]bool{eStr(ref.Identity()): true}
-	for y := int64(2); len(out) < 6 && y < 200; y++ {
+	// the points with x = 0 or y = 0: (0,−1) of order 2 and (±i, 0) of order 4 (−x² = 1)
+	for _, p := range []curves.EPoint{
+		{X: ref.F.Int(0), Y: ref.F.Int(-1)},
+		{X: ref.F.Elt2(big.NewInt(0), big.NewInt(1)), Y: ref.F.Int(0)},
+		{X: ref.F.Elt2(big.NewInt(0), big.NewInt(-1)), Y: ref.F.Int(0)},
+	} {
+		if !ref.OnCurve(p) {
+			panic("SELFTEST-FAIL FourQ low-order point off curve")
+		}
+		seen[eStr(p)] = true
+		out = append(out, p)
+	}
+	for y := int64(2); len(out) < 9 && y < 200; y++ {
 		for _, p := range ref.LiftY(ref.F.Elt2(big.NewInt(y), big.NewInt(3*y+1))) {
 			tp := ref.Mul(ref.R, p) // order divides 392
 			if !seen[eStr(tp)] {
@@ -274,7 +350,7 @@ func TestC13FourQ(t *testing.T) {
 func ristrettoAdapter() *adapter {
 	ref := curves.Ed25519
 	g := group.Ristretto255
-	ad := &adapter{name: "group.ristretto255", r: ref.R, sbytes: 32}
+	ad := &adapter{name: "group.ristretto255", r: ref.R, sbytes: 32, projective: true}
 	ad.ref = func(k *big.Int) string { return hex.EncodeToString(curves.Ristretto255Encode(ref.MulG(k))) }
 	ad.mk = func(a *big.Int) pt {
 		e := g.NewElement()
